@@ -4,15 +4,18 @@ import "time"
 
 // ExploreOpts bound a stateless depth-first exploration.
 type ExploreOpts struct {
-	Bound    int       // maximum total cost (preemptions + deviations) of a schedule
-	MaxExecs int64     // 0 = unlimited
-	Deadline time.Time // zero = none
-	Run      Opts      // per-execution options
-	Shard    int       // explore only subtrees with index%Shards == Shard (when Shards > 1)
-	Shards   int
-	SplitAt  int                       // recursion depth at which subtrees are dealt to shards (default 2)
-	Stop     func() bool               // polled between executions
-	Exec     func(prefix []int) *Sched // optional: runs one execution (default Run(prefix, o.Run, body))
+	Bound int // maximum total cost (preemptions + deviations) of a schedule
+	// FreeBound > 0: at most this many non-default choices among the cost-free ones (switches at
+	// blocking points, ready select arms); 0 = unlimited.
+	FreeBound int
+	MaxExecs  int64     // 0 = unlimited
+	Deadline  time.Time // zero = none
+	Run       Opts      // per-execution options
+	Shard     int       // explore only subtrees with index%Shards == Shard (when Shards > 1)
+	Shards    int
+	SplitAt   int                       // recursion depth at which subtrees are dealt to shards (default 2)
+	Stop      func() bool               // polled between executions
+	Exec      func(prefix []int) *Sched // optional: runs one execution (default Run(prefix, o.Run, body))
 }
 
 // ExploreStats is what Explore covered.
@@ -75,13 +78,16 @@ func Explore(o ExploreOpts, body func(), visit func(x *Sched) bool) ExploreStats
 				return
 			}
 		}
-		cost := 0
+		cost, free := 0, 0
 		ds := x.Decisions
 		for i := range ds {
 			d := &ds[i]
 			if i >= len(prefix) {
 				for alt := 1; alt < d.N; alt++ {
 					if cost+int(d.Costs[alt]) > o.Bound {
+						continue
+					}
+					if o.FreeBound > 0 && d.Costs[alt] == 0 && free+1 > o.FreeBound {
 						continue
 					}
 					np := make([]int, i+1)
@@ -96,6 +102,9 @@ func Explore(o ExploreOpts, body func(), visit func(x *Sched) bool) ExploreStats
 				}
 			}
 			cost += int(d.Costs[d.Chosen])
+			if d.Chosen != 0 && d.Costs[d.Chosen] == 0 {
+				free++
+			}
 		}
 	}
 	rec(nil, 0, true)
